@@ -455,7 +455,13 @@ def pair_plans(plans, rng, cap=300):
     return out
 
 
-def vectors_for(cdc, c, seed, k_random, with_choices=True, max_choice=400):
+EXTREME_POLICIES = [
+    Policy(arr=0, string='empty', num='min', opt=False, flag='rand'),
+    Policy(arr='big', string='max', num='max', opt=True, flag='rand'),
+]
+
+
+def vectors_for(cdc, c, seed, k_random, with_choices=True, max_choice=400, extremes=False):
     """Yield (class, vals) canonical values for container c."""
     base = random.Random(f'{seed}:{cdc.env.key}:{c.name}')
     n = 0
@@ -467,6 +473,11 @@ def vectors_for(cdc, c, seed, k_random, with_choices=True, max_choice=400):
             plans = base.sample(plans, max_choice)
         for j, f in enumerate(plans):
             yield f'choice{j}', Gen(cdc, random.Random(base.getrandbits(64)), force=f).container(c)
+        if extremes or k_random >= 100:
+            # every branch alternative with its content at the size extremes (shortest / longest canonical members)
+            for j, f in enumerate(plans):
+                for e, pol in enumerate(EXTREME_POLICIES):
+                    yield f'choice{j}x{e}', Gen(cdc, random.Random(base.getrandbits(64)), force=f, policy=pol).container(c)
         if k_random >= 100:   # thorough tiers
             for j, f in enumerate(pair_plans(plans, base)):
                 yield f'pair{j}', Gen(cdc, random.Random(base.getrandbits(64)), force=f).container(c)
